@@ -31,9 +31,17 @@ for seed in sorted(by_seed):
         needs = json.dumps(needs)
     q = "; ".join("%s: %s" % (r["property"], r["verdict"]) for r in quick)
     t = "; ".join("%s: %s" % (r["property"], r["verdict"]) for r in thor) or "-"
-    tot += 1
-    if any(r["verdict"] == "DETECTED" for r in runs):
-        det += 1
+    doh = os.path.join(d, "demo_on_head.json")
+    neutral = False
+    if os.path.exists(doh):
+        j = json.load(open(doh))
+        neutral = j.get("demo_with_patch_rc") == "0"
+    if neutral:
+        q += " (no longer manifests on the repaired tree: its demo passes with the patch applied - neutralised by a later fix: commit)"
+    else:
+        tot += 1
+        if any(r["verdict"] == "DETECTED" for r in runs):
+            det += 1
     lines.append("| %s | %s | %s | %s | %s |" % (seed, prop, str(needs).replace("|", "/").replace("\n", " ")[:160], q, t))
     meta = {"name": seed, "property": prop, "what": agent.get("what") or agent.get("kind"),
             "needs_to_manifest": needs, "files_changed": agent.get("files_changed"),
@@ -41,6 +49,6 @@ for seed in sorted(by_seed):
             "how": "tools_verify_seed.sh (clean demo passes, demo fails with patch, full suite passes with patch); "
                    "tools_seedtest.sh <seed> <property> (scratch worktree of /repo HEAD + patch, ./check with VERIF_REPO)"}
     json.dump(meta, open(os.path.join(d, "meta.json"), "w"), indent=1)
-lines += ["", "%d of %d seeded changes are detected by at least one registered check." % (det, tot)]
+lines += ["", "%d of %d seeded changes that manifest on the current tree are detected by at least one registered check." % (det, tot)]
 open(os.path.join(ROOT, "seeded", "RESULTS.md"), "w").write("\n".join(lines) + "\n")
 print(lines[-1])
